@@ -208,7 +208,10 @@ var interestingFloats = []float64{0, math.Copysign(0, -1), 1, -1, 0.5, 1.1, 1.2,
 	16777216, 16777217, math.Inf(1), math.Inf(-1), math.NaN(), 42, 7, 100, 255.5}
 var interestingStrings = []string{"", "a", "b", "foo", "bar", "baz", "abc", "1", "0", "42", "7", "-1", "true", "false", "t", "1.5",
 	"hello world", "x y", "é", "日本", "/usr/bin", "/a/b", "a/b", "co:lon", "a.b", "q\"uote", "back`tick", "back\\slash",
-	"new\nline", "\x00nul", "\xff\xfe", "tab\t", "~0~1", "A", "Key", "0x10", "1e3", "Inf", "NaN", " ", "<invalid Value>"}
+	"new\nline", "\x00nul", "\xff\xfe", "tab\t", "~0~1", "A", "Key", "0x10", "1e3", "Inf", "NaN", " ", "<invalid Value>",
+	// strings that begin like a JSON pointer but are not one under the grammar's segment class (a widened class, or an
+	// error production on the way, would change how their double-quoted spelling is read)
+	"/@scope/pkg", "/$defs/x", "/a b", "/tmp/my file", "/x/y?z", "/a#b", "/a=b", "/a,b", "/a+b", "/a%20b", "/a/*", "/a\\b", "/é/ü", "/a//b", "/", "//", "/a/", "a\\", "C:\\dir\\"}
 var interestingKeys = []string{"a", "b", "foo", "bar", "k", "x", "0", "1", "2", "", "A", "X", "co:lon", "a/b", "a.b", "é", "~", "key with space", "true", "1.5", "-1"}
 
 func (g *Gen) pickInt(bits int) int64 {
